@@ -1038,6 +1038,17 @@ func settleBoundMonitor(out *Out, h int, e *Env, d *coreDump) {
 				settled = false
 			}
 		}
+		if !inQ[uid] {
+			// C03: a bet of a resolved market that is in neither settlement queue any more is never visited again, so it is
+			// never settled
+			for _, b := range d.bets {
+				if b.MarketUID == uid && b.Status != bettypes.Bet_STATUS_SETTLED {
+					failOnce(out, h, "C03", "every_bet_settled", "market-left-the-settlement-queues-with-a-pending-bet", uid,
+						fmt.Sprintf("market %d was resolved and is in neither settlement queue any more, but bet %d is still pending: it will never be settled", uidN(uid), uidN(b.UID)))
+					break
+				}
+			}
+		}
 		if settled {
 			du.done = true
 			out.Count("mon.C05.settled_within_bound")
